@@ -12,6 +12,8 @@ def run(ctx):
     ctx.check_coverage(r)
     ctx.exhaustive = True
     if not ctx.quick():
+        r7 = ctx.model_check("consensus", "MC_CsAbstract7", "MC_CsAbstract7.cfg", timeout=3000)
+        ctx.notes.append("CsAbstract with 7 validators (2 Byzantine), rounds 0..2, 1 crash-restart: %d distinct states, all invariants hold" % r7.distinct)
         rs = ctx.tlc("consensus", "MC_CsAbstract", "MC_CsAbstract.cfg", constants=dict(MaxRound=3, MaxCrash=1, FixWal="FALSE"),
                      expect_violation=True, count=False, label="sensitivity: lock round not persisted on re-lock", timeout=1800)
         if rs.violation != "Agreement":
